@@ -10,7 +10,7 @@
 (*        offset in the original (offsets computed by Text.tla).           *)
 (*   C12: padding.                                                         *)
 (***************************************************************************)
-EXTENDS AnsiFuncs, Text
+EXTENDS AnsiFuncs, Text, FormatSpec
 
 PyOk(e) == e.o.pyout = "ok"
 PyText(e) == e.o.py.v
@@ -207,6 +207,40 @@ QueryC(e, pre, post) ==
         Cl("C10.value", TRUE, e.o.val = e.o.py)
      \o Cl("audit.query", Simple(v.t) /\ spec.t # "none", (Simple(v.t) /\ spec.t # "none") => spec = e.o.py)
 
+---------------------------------------------------------------------------
+\* C12: format(s, spec) / to_str(spec).  The harness builds the twin "padding + apply_formatting on a copy"
+\* from its own reading of the spec (e.a.py), which is audited against FormatSpec.tla here.
+FmtC(e, pre, post) ==
+  LET v == pre[e.r] n == Len(v.t)
+      p == ParseFmt(e.a.spec)
+      same == (e.a.py_valid = 1) = p.valid /\
+              (p.valid =>
+                 /\ e.a.py.fill = p.sf.fill /\ (e.a.py.ext = 1) = p.sf.ext /\ e.a.py.align = p.sf.align
+                 /\ (e.a.py.haswidth = 1) = p.sf.haswidth /\ (p.sf.haswidth => e.a.py.width = p.sf.width)
+                 /\ (e.a.py.amb = 1) = p.sf.ambiguous
+                 /\ (e.a.py.hasansi = 1) = p.hasansi /\ e.a.py.ansi = p.ansi)
+      claim == p.valid /\ ~p.sf.ambiguous /\ ~p.colonfill /\ e.a.ansi_ok = 1 /\ e.a.how # "fstr"
+  IN Cl("audit.fmt_parse", TRUE, same)
+  \o Cl("C12.format_invalid_raises", ~p.valid /\ e.a.how # "fstr", (~p.valid /\ e.a.how # "fstr") => e.out = "raise:ValueError")
+  \o Cl("C12.format_defined", claim, claim => e.out = "ok")
+  \o IF e.out # "ok" \/ ~claim \/ e.a.has_twin # 1 \/ Len(e.res) # 1 THEN None ELSE
+     LET twin == post[e.res[1]]
+         out == e.o.out
+         toks == Tokens(out)
+         w == IF p.sf.haswidth THEN p.sf.width ELSE 0
+         pad == IF p.sf.align = 60 THEN PadLJust(n, w) ELSE IF p.sf.align = 62 THEN PadRJust(n, w) ELSE PadCenter(n, w)
+         wantText == Rep(p.sf.fill, pad[1]) \o v.t \o Rep(p.sf.fill, pad[2])
+         dclaim == ValAllSingle(twin) /\ NoEsc(wantText)
+     IN Cl("C12.format_equals_pad_apply", TRUE, out = e.o.twin_out)
+     \o Cl("C12.format_text", NoEsc(wantText), NoEsc(wantText) => (twin.t = wantText /\ (ValReadable(twin) => CharsOf(toks) = wantText)))
+     \o Cl("C12.format_display", dclaim /\ HasStyle(twin), dclaim => Shown(RunToks(toks, 1, DefaultState), twin))
+     \o Cl("C12.format_fill_sty", HasStyle(v) /\ pad # <<0, 0>> /\ ~p.hasansi,
+           ~p.hasansi =>
+             LET segs == << IF p.sf.ext THEN <<"lit", Rep(p.sf.fill, pad[1]), "at", e.r, 0>> ELSE <<"lit", Rep(p.sf.fill, pad[1]), "none", 0, 0>>,
+                            <<"reg", e.r, 0, n>>,
+                            IF p.sf.ext THEN <<"lit", Rep(p.sf.fill, pad[2]), "at", e.r, n - 1>> ELSE <<"lit", Rep(p.sf.fill, pad[2]), "none", 0, 0>> >>
+             IN StyIs(twin, segs, pre))
+
 TextOpClauses(e, pre, post) ==
   CASE e.op = "case" -> CaseC(e, pre, post)
     [] e.op = "pad" -> PadC(e, pre, post)
@@ -219,5 +253,6 @@ TextOpClauses(e, pre, post) ==
     [] e.op = "partition" -> PartitionC(e, pre, post)
     [] e.op = "assign_str" -> AssignStrC(e, pre, post)
     [] e.op = "query" -> QueryC(e, pre, post)
+    [] e.op = "fmt" -> FmtC(e, pre, post)
     [] OTHER -> None
 =============================================================================
